@@ -4,6 +4,7 @@ package main
 // TZ-SIGN, TZ-KEY, FMT-NANO.
 
 import (
+	"sort"
 	"fmt"
 	"go/token"
 	"strings"
@@ -363,39 +364,101 @@ func ruleParseTime(c *Ctx) {
 				}
 			}
 			c.Check(ok, key+"/zone-offset", P.pos(gz.Pos()), "offset = sign*(hh*3600 + mm*60) with hh, mm the successfully parsed digits around a checked ':'", "the numeric zone offset is not sign*(hh*3600+mm*60) of the zone's own digits: "+detail)
-			// sign values per character
+			// sign values per character: case analysis over the zone's first character. For each
+			// candidate character the tests that compare it with constants are decided, every
+			// other branch is followed both ways, and the sign phi's reachable incoming edges
+			// give the possible signs.
 			if sign != nil {
-				vals := map[int64]int64{}
-				for i, e := range sign.Edges {
-					k, isK := constInt(e)
-					if !isK {
-						continue
-					}
-					// the nearest test decides this edge (the switch on the zone's first character)
-					facts := cmpFactsOnEdge(sign.Block().Preds[i], sign.Block())
-					for j := len(facts) - 1; j >= 0; j-- {
-						if facts[j].Op == token.EQL {
-							if ch, ok := constInt(facts[j].Y); ok {
-								vals[ch] = k
-								break
+				var cv ssa.Value
+				consts := map[int64]bool{}
+				cmpWith := map[ssa.Value]map[int64]bool{}
+				var cmpOrder []ssa.Value
+				for _, b := range fn.Blocks {
+					for _, in := range b.Instrs {
+						bo, ok := in.(*ssa.BinOp)
+						if !ok || bo.Op != token.EQL && bo.Op != token.NEQ {
+							continue
+						}
+						if k, isK := constInt(bo.Y); isK && (k == '+' || k == '-') {
+							x := stripConv(bo.X)
+							if cmpWith[x] == nil {
+								cmpWith[x] = map[int64]bool{}
+								cmpOrder = append(cmpOrder, x)
 							}
+							cmpWith[x][k] = true
 						}
 					}
-					if len(facts) > 0 {
-						// factsAt lists the nearest dominating test first
-						if f0 := cmpFactsAt(sign.Block().Preds[i]); len(f0) > 0 && f0[0].Op == token.EQL {
-							if ch, ok := constInt(f0[0].Y); ok {
-								for k2 := range vals {
-									if k2 != ch && vals[k2] == k {
-										delete(vals, k2)
-									}
-								}
-								vals[ch] = k
+				}
+				// the zone's first character is the value compared with '-' (and usually '+') nearest the zone lookup
+				for _, both := range []bool{true, false} {
+					for _, x := range cmpOrder {
+						if cv == nil && cmpWith[x]['-'] && (cmpWith[x]['+'] || !both) {
+							if in, isIn := x.(ssa.Instruction); isIn && in.Block().Dominates(gz.Block()) {
+								cv = x
 							}
 						}
 					}
 				}
-				c.Check(vals['+'] == 1 && vals['-'] == -1 && len(vals) == 2, key+"/zone-sign", P.pos(sign.Pos()), "'+' -> +1, '-' -> -1, anything else an error", fmt.Sprintf("the zone sign table is %v, want '+' -> 1 and '-' -> -1 only", vals))
+				if cv != nil {
+					for _, b := range fn.Blocks {
+						for _, in := range b.Instrs {
+							if bo, ok := in.(*ssa.BinOp); ok && stripConv(bo.X) == cv {
+								if k, isK := constInt(bo.Y); isK {
+									consts[k] = true
+								}
+							}
+						}
+					}
+				}
+				okSign := cv != nil
+				table := map[string][]int64{}
+				if okSign {
+					fresh := int64('x')
+					for consts[fresh] {
+						fresh++
+					}
+					consts[fresh], consts['+'], consts['-'] = true, true, true
+					start := fn.Blocks[0]
+					if in, isIn := cv.(ssa.Instruction); isIn {
+						start = in.Block()
+					}
+					var ks []int64
+					for k := range consts {
+						ks = append(ks, k)
+					}
+					sort.Slice(ks, func(i, j int) bool { return ks[i] < ks[j] })
+					for _, k := range ks {
+						edges := reachUnderCase(start, cv, k)
+						var got []int64
+						unknown := false
+						for i, e := range sign.Edges {
+							if !edges[[2]int{sign.Block().Preds[i].Index, sign.Block().Index}] {
+								continue
+							}
+							if v, isK := constInt(e); isK {
+								got = append(got, v)
+							} else {
+								unknown = true
+							}
+						}
+						name := fmt.Sprintf("%q", rune(k))
+						if k == fresh {
+							name = "other"
+						}
+						table[name] = got
+						switch {
+						case unknown:
+							okSign = false
+						case k == '+':
+							okSign = okSign && len(got) > 0 && allEqual(got, 1)
+						case k == '-':
+							okSign = okSign && len(got) > 0 && allEqual(got, -1)
+						default:
+							okSign = okSign && len(got) == 0
+						}
+					}
+				}
+				c.Check(okSign, key+"/zone-sign", P.pos(sign.Pos()), "'+' -> +1, '-' -> -1, anything else never reaches the offset", fmt.Sprintf("the zone sign by first character is %v, want '+' -> 1, '-' -> -1 and nothing else", table))
 			}
 			// 'Z' -> UTC
 			zOK := false
@@ -478,4 +541,73 @@ func ruleParseTime(c *Ctx) {
 			c.Check(ok, "time.StringCodec.Write/layout", P.pos(ct.M["Write"].Pos()), "t.Format(time.RFC3339Nano)", "the time is not formatted with time.RFC3339Nano: sub-second precision or the offset is lost on the way out")
 		}
 	}
+}
+
+func allEqual(xs []int64, v int64) bool {
+	for _, x := range xs {
+		if x != v {
+			return false
+		}
+	}
+	return true
+}
+
+// reachUnderCase returns the CFG edges (pred index, succ index) reachable from
+// start when cv has the value k: branches comparing cv with a constant are
+// decided, all others are followed both ways.
+func reachUnderCase(start *ssa.BasicBlock, cv ssa.Value, k int64) map[[2]int]bool {
+	edges := map[[2]int]bool{}
+	seen := map[*ssa.BasicBlock]bool{}
+	var visit func(b *ssa.BasicBlock)
+	visit = func(b *ssa.BasicBlock) {
+		if seen[b] {
+			return
+		}
+		seen[b] = true
+		take := []int{}
+		for i := range b.Succs {
+			take = append(take, i)
+		}
+		if iff, ok := b.Instrs[len(b.Instrs)-1].(*ssa.If); ok {
+			if cmp, ok := asCmp(iff.Cond, true); ok {
+				x, y, op := cmp.X, cmp.Y, cmp.Op
+				if _, isK := constInt(x); isK {
+					x, y, op = y, x, swapOp(op)
+				}
+				if c0, isK := constInt(y); isK && stripConv(x) == cv {
+					var truth bool
+					decided := true
+					switch op {
+					case token.EQL:
+						truth = k == c0
+					case token.NEQ:
+						truth = k != c0
+					case token.LSS:
+						truth = k < c0
+					case token.LEQ:
+						truth = k <= c0
+					case token.GTR:
+						truth = k > c0
+					case token.GEQ:
+						truth = k >= c0
+					default:
+						decided = false
+					}
+					if decided {
+						if truth {
+							take = []int{0}
+						} else {
+							take = []int{1}
+						}
+					}
+				}
+			}
+		}
+		for _, i := range take {
+			edges[[2]int{b.Index, b.Succs[i].Index}] = true
+			visit(b.Succs[i])
+		}
+	}
+	visit(start)
+	return edges
 }
